@@ -674,6 +674,126 @@ def _expected_read_after(fn, blk, ev):
     return False
 
 
+def rule_r6(chk, db, cfgname, tab):
+    chk.rule('C06.R6', 'every mutable variable with static storage in the library is atomic, a mutex, thread_local, a '
+             'reviewed process-wide setting, or is accessed only with its guard held; and no pointer, iterator or '
+             'reference obtained from a guarded container inside the critical section is used after the guard is '
+             'released')
+    guards = {g['var']: g for g in tab.get('static_guards', [])}
+    reviewed = {g['var']: g['reason'] for g in tab.get('static_reviewed', [])}
+    vs = db.vars.values() if isinstance(db.vars, dict) else db.vars
+    seen = set()
+    for v in vs:
+        if not v['file'].startswith(('src/', 'include/', 'bindings/')) or v.get('const') or v.get('constexpr'):
+            continue
+        if v['name'] in seen:
+            continue
+        seen.add(v['name'])
+        t = db.types[v['tu']][v['t']]
+        ts = t.get('s') or ''
+        chk.count('c06.r6.static_variables')
+        if v.get('threadLocal'):
+            why = 'thread_local'
+        elif ts.startswith('std::atomic') or 'mutex' in ts:
+            why = 'atomic / mutex'
+        elif v['name'] in guards:
+            why = 'guarded by ' + guards[v['name']]['guard']
+        elif v['name'] in reviewed:
+            why = 'reviewed: ' + reviewed[v['name']]
+        else:
+            why = None
+        chk.obligation(why is not None, {'static variable': v['name'], 'file': v['file'], 'line': v['line'],
+                                         'type': ts[:50], 'status': why or 'UNGUARDED MUTABLE STATIC'})
+        if why is None:
+            chk.violation('C06.R6', {'name': v['name'], 'file': v['file'], 'line': v['line']},
+                          'mutable static %s' % v['name'],
+                          'a non-atomic mutable variable with static storage is shared by every thread that uses the '
+                          'library and has no registered guard', line=v['line'], cfg=cfgname)
+    # guarded statics: accesses under the guard, no derived pointer used outside
+    nacc = 0
+    for fn in db.functions.values():
+        if not fn.get('blocks'):
+            continue
+        hits = []
+        for b in fn['blocks']:
+            for ev in b['ev']:
+                for x in T.walk(ev):
+                    if isinstance(x, dict) and x.get('k') == 'var' and x.get('n') in guards:
+                        hits.append(x['n'])
+        if not hits:
+            continue
+        li = LockInfo(db, fn)
+        te = lock_transfer(li)
+        g = C.Cfg(fn)
+
+        def tr(block, held):
+            for ev in block['ev']:
+                held = te(ev, held)
+            return held
+        IN, _ = C.forward(g, frozenset(), tr, lambda a, b: a & b)
+        for gname in sorted(set(hits)):
+            need = norm(guards[gname]['guard'])
+            tainted = {}
+            # pass 1: locals bound (under the lock) to something derived from the guarded variable
+            changed = True
+            while changed:
+                changed = False
+                for b in fn['blocks']:
+                    for ev in b['ev']:
+                        pairs = []
+                        if ev.get('k') == 'decl':
+                            pairs = [(v['n'], v.get('init'), v.get('t')) for v in ev['vars'] if v.get('init') is not None]
+                        elif ev.get('k') == 'bin' and ev.get('op') == '=' and T.strip(ev['l']).get('k') == 'var':
+                            pairs = [(T.strip(ev['l'])['n'], ev['r'], T.strip(ev['l']).get('t'))]
+                        elif ev.get('k') == 'call' and ev.get('op') == '=' and ev.get('recv') is not None and \
+                                T.strip(ev['recv']).get('k') == 'var' and ev.get('args'):
+                            pairs = [(T.strip(ev['recv'])['n'], ev['args'][0], T.strip(ev['recv']).get('t'))]
+                        for name, init, ti in pairs:
+                            if name in tainted or init is None:
+                                continue
+                            src = any(isinstance(y, dict) and y.get('k') == 'var' and
+                                      (y.get('n') == gname or y.get('n') in tainted) for y in T.walk(init))
+                            if not src:
+                                continue
+                            tt = db.T(fn, ti) if isinstance(ti, int) else {}
+                            c = tt.get('c') or tt.get('s') or ''
+                            indirect = tt.get('ptr') or tt.get('ref') or c.rstrip().endswith(('*', '&')) or \
+                                'iterator' in c or '_Node_' in c
+                            if indirect:
+                                tainted[name] = ev.get('ln')
+                                changed = True
+            for b in fn['blocks']:
+                held = IN.get(b['id'], frozenset())
+                for ev in b['ev']:
+                    held_before = held
+                    held = te(ev, held)
+                    if ev.get('k') in ('dtor',):
+                        continue
+                    names = {y['n'] for y in T.walk(ev) if isinstance(y, dict) and y.get('k') == 'var'}
+                    if gname in names:
+                        nacc += 1
+                        ok = need in held_before or need in held
+                        chk.obligation(ok, {'function': fn['name'], 'line': ev.get('ln'), 'access': T.pstr(ev)[:50],
+                                            'guard': need, 'held': ok})
+                        if not ok:
+                            chk.violation('C06.R6', fn, '%s accessed without %s' % (T.short(gname), T.short(need)),
+                                          'the shared container %s is accessed without its guard: data race with a '
+                                          'concurrent insertion (rehash)' % gname, line=ev.get('ln'), cfg=cfgname)
+                    used = names & set(tainted)
+                    if used and ev.get('k') not in ('decl',) and need not in held_before and need not in held:
+                        # top-level events only: sub-expression elements repeat the same use
+                        nacc += 1
+                        chk.obligation(False, {'function': fn['name'], 'line': ev.get('ln'),
+                                               'use of': sorted(used), 'derived from': gname, 'guard held': False})
+                        chk.violation('C06.R6', fn, '%s used outside the critical section' % ','.join(sorted(used)),
+                                      '%s (bound at line %s to an element of %s while %s was held) is used after '
+                                      'the guard was released: a concurrent writer can free or move what it points '
+                                      'to' % (','.join(sorted(used)), tainted[sorted(used)[0]], gname, T.short(need)),
+                                      line=ev.get('ln'), cfg=cfgname)
+                        break
+    chk.count('c06.r6.guarded_accesses', nacc)
+
+
 def main(chk, tier):
     import db as D
     configs = ['seq', 'par'] if tier == 'quick' else ['seq', 'par', 'seq-debug', 'par-debug']
@@ -690,6 +810,7 @@ def main(chk, tier):
         rule_r3(chk, db, cfgname, tab)
         rule_r4(chk, db, cfgname)
         rule_r5(chk, db, cfgname, tab)
+        rule_r6(chk, db, cfgname, tab)
     n = len(configs)
     chk.floor('c06.r1.accesses', 90 * n)
     chk.floor('c06.r1.lock_acquisitions', 15 * n)
@@ -699,6 +820,8 @@ def main(chk, tier):
     chk.floor('c06.r3.lock_classes', 4 * n)
     chk.floor('c06.r4.cas_sites', 1 * n)
     chk.floor('c06.r5.copy_operations', 1 * n)
+    chk.floor('c06.r6.static_variables', 8 * n)
+    chk.floor('c06.r6.guarded_accesses', 3 * n)
     return chk.finish(
         'Lockset (guarded-by) analysis of every access to the library\'s lazily mutated shared fields over the '
         'CFGs (with implicit destructors) of all functions, in both MANIFOLD_PAR configurations, plus atomic-only '
